@@ -1299,7 +1299,15 @@ def run(ctx):
             if v.startswith("sanitizer"):
                 ctx.note("char_at out of range (%s, %s): %s - outside C08's statement, recorded only" % (eng, cls, v))
 
-        n_proc = n_proc_cells + 2 * len(acells) + len(ca_jobs)
+        # ---- implicit accesses: for-in / map / filter / reduce over a shrinking array, array_slice bounds -----------
+        import sys as _sys
+        from . import c08_implicit
+        imp = c08_implicit.run_all(_sys.modules[__name__], ctx, asan, sc, pmap)
+        timeouts += imp["timeouts"]
+        distinct |= set(("implicit",) + d for d in imp["distinct"])
+        nonstop.update(imp["not_stopped_by_key"])
+
+        n_proc = n_proc_cells + 2 * len(acells) + len(ca_jobs) + imp["processes"]
         if not ctx.violations:
             ctx.require(timeouts == 0, "%d cell(s) hit the watchdog twice" % timeouts)
             for pk, lo in (("vm", 0.9), ("nano_vm", 0.9), ("eval", 0.4), ("native", 0.5),
@@ -1312,6 +1320,8 @@ def run(ctx):
                     ctx.require(place_hist.get("%s@%s|stopped" % (e, place), 0) >= 3,
                                 "fewer than 3 cells evaluated for %s with the access in placement %s" % (e, place))
             ctx.require(asm_eval >= 100, "too few assembler-level cells evaluated (%d)" % asm_eval)
+            for e in ("native", "vm", "nano_vm"):
+                ctx.require(imp["evaluated"][e] >= 150, "implicit-access family: only %d cells evaluated on %s" % (imp["evaluated"][e], e))
         grid_sizes = {e: sum(1 for c in {c.ident(): c for c in full[e]}.values() if not c.control) for e in full}
         return ctx.finish({
             "evaluations": n_proc,
@@ -1354,6 +1364,7 @@ def run(ctx):
             "asm_outcomes": dict(sorted(asm_hist.items())),
             "asm_verifier": "nano_vm runs nvm_verify before executing (accepted every case except: %s); the probe runner skips it" % (sorted(verifier_note) or "none"),
             "char_at_observed_only": dict(sorted(ca_hist.items())),
+            "implicit_access": {k: v for k, v in imp.items() if k not in ("distinct", "not_stopped_by_key")},
             "samples": samples,
         }, assumptions=[
             "a run-time error is observed as: no C08:VALUE / C08:AFTER line, exit status != 0 or death by signal, no ASan/UBSan report; "
@@ -1371,5 +1382,9 @@ def run(ctx):
             "family; each index still runs in its own process",
             "array<Enum> cannot be read back (the type checker treats its elements as structs), so the enum element kind stores enum "
             "constants in array<int>; arrays of enum-typed indices are covered by the enum_index placement",
+            "implicit accesses (for x in a, map/filter/reduce, array_slice): reference = the semantics stated in src/eval.c and shared by the "
+            "three engines (length taken once, every element read bounds-checked at its turn; array_slice clamps); a loop that ends early "
+            "without reading out of range is recorded as 'ended-early', not as a violation; string iteration has no array-indexing "
+            "builtin beyond char_at (observed only)",
             "char_at is outside the statement of C08 (strings) and docs/STDLIB.md contradicts itself; it is recorded, not judged",
         ])
